@@ -27,7 +27,27 @@ def parsers():
     import ahbicht.expressions.condition_expression_parser as cp
     return {"cond": (cp.parse_condition_expression_to_tree, cp._parser, COND, "[%d]"),
             "condws": (cp.parse_condition_expression_to_tree, cp._parser, CONDWS, "[%d]"),
-            "ahb": (ap.parse_ahb_expression_to_single_requirement_indicator_expressions, ap._parser, AHBS, "M[%d]")}
+            "ahb": (ap.parse_ahb_expression_to_single_requirement_indicator_expressions, ap._parser, AHBS, "M[%d]"),
+            # the condition parser reached THROUGH the expression resolver: the resolver embeds trees of the cached condition parser in its result;
+            # callers edit that embedded tree; every later parse (directly and through the resolver) must still be pristine
+            "via_resolver": (_via_resolver, cp._parser, COND, "[%d]")}
+
+
+_loop = []
+_COND_RULES = {"and_composition", "or_composition", "xor_composition", "then_also_composition", "condition", "package", "time_condition"}
+
+
+def _via_resolver(text):
+    """-> the condition tree embedded in parse_expression_including_unresolved_subexpressions('Muss ' + text) (None if it cannot be located)"""
+    from ahbicht.expressions.expression_resolver import parse_expression_including_unresolved_subexpressions
+    from lark import Tree
+    if not _loop:
+        _loop.append(asyncio.new_event_loop())
+    t = _loop[0].run_until_complete(parse_expression_including_unresolved_subexpressions("Muss " + text, replace_time_conditions=False))
+    for sub in t.iter_subtrees_topdown():
+        if isinstance(sub, Tree) and str(sub.data) in _COND_RULES:
+            return sub
+    return None
 
 
 def cell(tree, where):
@@ -61,7 +81,7 @@ def raw_parser(which):
     import lark
     import ahbicht.expressions.ahb_expression_parser as ap
     import ahbicht.expressions.condition_expression_parser as cp
-    mod, start = (cp, "expression") if which in ("cond", "condws") else (ap, "ahb_expression")
+    mod, start = (cp, "expression") if which in ("cond", "condws", "via_resolver") else (ap, "ahb_expression")
     p = getattr(mod, "_parser", None)
     return p if p is not None else lark.Lark(mod.GRAMMAR, start=start)
 
@@ -86,7 +106,12 @@ def replay_history(which, hist, acc):
         if a[0] == "parse":
             try:
                 t = fn(strings[a[1]])
+                if which == "via_resolver" and t is None:       # the embedded tree could not be located: this mode decides nothing
+                    acc["skipped_via_resolver"] = acc.get("skipped_via_resolver", 0) + 1
+                    return
                 shape = ahb.tree_shape(t)
+                if which == "via_resolver" and shape == pristine[a[1]]:     # the direct parse of the same string must be pristine as well
+                    shape = ahb.tree_shape(parsers()["cond"][0](strings[a[1]]))
             except SyntaxError:
                 t, shape = None, "SyntaxError"
             handed.append(t)
@@ -113,7 +138,7 @@ def replay_history(which, hist, acc):
 def cache_maxsize(which):
     import ahbicht.expressions.ahb_expression_parser as ap
     import ahbicht.expressions.condition_expression_parser as cp
-    mod, name = (cp, "parse_condition_expression_to_tree") if which in ("cond", "condws") else (ap, "parse_ahb_expression_to_single_requirement_indicator_expressions")
+    mod, name = (cp, "parse_condition_expression_to_tree") if which in ("cond", "condws", "via_resolver") else (ap, "parse_ahb_expression_to_single_requirement_indicator_expressions")
     fn = getattr(mod, name)
     # tree_copy's closure holds the lru_cache'd function; otherwise look for lru_cache'd functions in the module
     cands = [c.cell_contents for c in (fn.__closure__ or ())] + list(vars(mod).values())
@@ -138,7 +163,7 @@ def _worker(args):
             if acc["floods"] >= flood_budget or rng.random() > 0.02:
                 continue
             acc["floods"] += 1
-        for which in ("cond", "ahb", "condws"):
+        for which in ("cond", "ahb", "condws", "via_resolver"):
             try:
                 replay_history(which, hist, acc)
             except MachineryError:
@@ -193,7 +218,10 @@ def run():
 
     async def ev(expr):
         ahb.set_cer_values(rc={1: "F", 2: "U", 3: "K", 4: "F"}, fc={901: True}, hints={})
-        r = await requirement_constraint_evaluation(expr)
+        try:
+            r = await requirement_constraint_evaluation(expr)
+        except Exception as e:  # noqa: BLE001 - total: an evaluation that starts to fail after edits of returned trees is a difference, not a harness failure
+            return ("raises", type(e).__name__, str(e)[:120])
         return (r.requirement_constraints_fulfilled, r.requirement_is_conditional, r.format_constraints_expression)
 
     for expr in instantiate({"e1": "[1]U[2]", "e2": "([3]O[4])[901]", "e3": "[1] U [2] X [4]"}).values() if False else ["[1]U[2]", "([3]O[4])[901]", "[1] U [2] X [4]"]:
@@ -218,7 +246,7 @@ def run():
 def replay(case):
     import ahb
     ahb.configure()
-    if case.get("which") in ("cond", "ahb"):
+    if case.get("which") in ("cond", "ahb", "condws", "via_resolver"):
         which = case["which"]
         acc = {"viol": [], "n": 0}
         replay_history(which, [tuple(a) for a in case["history"]], acc)
